@@ -66,6 +66,9 @@ def contexts():
     C['factory-twice'] = (f'{FUN} mk(k) {{ {FUN} body() {{ {{B}} {RET} k; }} {RET} body; }}\n{VAR} b1 = mk(1);\n{VAR} b2 = mk(2);\n{P} b1();\n{P} b2();\n{P} b1();\n')
     C['factory-cross-call'] = (f'{FUN} mk(k) {{ {FUN} body(other, n) {{ {{B}} {IF} (n > 0) {{ {RET} other(body, n - 1); }} {RET} k; }} {RET} body; }}\n'
                                f'{VAR} b1 = mk(1);\n{VAR} b2 = mk(10);\n{P} b1(b2, 1);\n{P} b2(b1, 2);\n{P} b1(b1, 1);\n')
+    C['tail-call-direct'] = (f'{FUN} mk(k) {{ {FUN} step(other, n) {{ {{B}} {IF} (n == 0) {{ {RET} k; }} {RET} other(step, n - 1); }} {RET} step; }}\n'
+                             f'{VAR} s1 = mk(1);\n{VAR} s2 = mk(10);\n{P} s1(s2, 1);\n{P} s2(s1, 1);\n{P} s1(s2, 2);\n{P} s1(s1, 3);\n')
+    C['tail-call-by-name'] = (f'{FUN} even(k) {{ {IF} (k == 0) {{ {RET} "even"; }} {RET} odd(k - 1); }}\n{FUN} odd(k) {{ {{B}} {IF} (k == 0) {{ {RET} "odd"; }} {RET} even(k - 1); }}\n{P} even(3);\n{P} odd(2);\n')
     C['tail-call-sibling'] = (f'{FUN} mk(k) {{ {FUN} body(other, n) {{ {IF} (n > 0) {{ {RET} other(body, n - 1); }} {{B}} {RET} k; }} {RET} body; }}\n'
                               f'{VAR} b1 = mk(1);\n{VAR} b2 = mk(10);\n{P} b1(b2, 1);\n{P} b2(b1, 1);\n{P} b1(b2, 2);\n')
     C['object-property-call'] = f'{VAR} obj = {{}};\n{FUN} run(k) {{ {{B}} {RET} k; }}\nobj.run = run;\n{P} obj.run(0);\n{P} obj.run(1);\n{VAR} alias = obj.run;\n{P} alias(2);\n'
